@@ -1,0 +1,62 @@
+//go:build verif
+
+// Package verifx re-exports internal packages to the external verification harness.
+// It only exists with the "verif" build tag and is never part of a normal build.
+package verifx
+
+import (
+	"net/url"
+
+	"github.com/grpc-ecosystem/grpc-gateway/v2/utilities"
+	"github.com/renbou/grpcbridge/internal/ascii"
+	"github.com/renbou/grpcbridge/internal/gwquery"
+	"github.com/renbou/grpcbridge/internal/httperr"
+	"github.com/renbou/grpcbridge/internal/httprule"
+	gwbased "github.com/renbou/grpcbridge/internal/httprule/gwbased"
+	"github.com/renbou/grpcbridge/internal/rpcutil"
+	"github.com/renbou/grpcbridge/internal/syncset"
+	"github.com/renbou/grpcbridge/internal/verifhook"
+	"google.golang.org/protobuf/proto"
+)
+
+// internal/ascii
+func ASCIIEqualFold(s, t string) bool { return ascii.EqualFold(s, t) }
+
+// internal/httprule (strict parser + trie)
+type StrictTemplate = httprule.Template
+type StrictTrie = httprule.Trie
+
+func StrictParse(tmpl string) (*httprule.Template, error) { return httprule.Parse(tmpl) }
+func StrictTokenize(tmpl string) []string                 { return httprule.VerifTokenize(tmpl) }
+func NewStrictTrie() *httprule.Trie                       { return httprule.NewTrie() }
+
+// internal/httprule/gwbased
+type GWTemplate = gwbased.Template
+type GWCompiler = gwbased.Compiler
+
+func GWParse(tmpl string) (gwbased.Compiler, error) { return gwbased.Parse(tmpl) }
+func GWTokenize(path string) ([]string, string)     { return gwbased.VerifTokenize(path) }
+func GWString(c gwbased.Compiler) string            { return gwbased.VerifString(c) }
+
+// internal/gwquery
+func QueryPopulateFieldFromPath(msg proto.Message, fieldPath string, value string) error {
+	return gwquery.PopulateFieldFromPath(msg, fieldPath, value)
+}
+
+func QueryPopulateQueryParameters(msg proto.Message, values url.Values, filter *utilities.DoubleArray) error {
+	return gwquery.PopulateQueryParameters(msg, values, filter)
+}
+
+func QueryBytes(val string) ([]byte, error) { return gwquery.Bytes(val) }
+
+// internal/rpcutil, internal/httperr
+func ContextError(err error) error              { return rpcutil.ContextError(err) }
+func HTTPStatusError(code int, err error) error { return httperr.Status(code, err) }
+
+// internal/syncset
+func NewStringSyncSet() *syncset.SyncSet[string] { return syncset.New[string]() }
+
+// internal/verifhook
+type HookHandler = verifhook.Handler
+
+func SetHook(h verifhook.Handler) { verifhook.Set(h) }
